@@ -79,8 +79,8 @@ type CVehicle struct {
 
 type CFrame struct {
 	S, E   int64
-	Scale  *float64  `json:"scale,omitempty"`
-	Matrix [][]int   `json:"matrix,omitempty"`
+	Scale  *float64 `json:"scale,omitempty"`
+	Matrix [][]int  `json:"matrix,omitempty"`
 }
 
 type CTD struct {
@@ -161,9 +161,9 @@ type CSolve struct {
 
 // Profile steers which features a generated case may use.
 type Profile struct {
-	MaxStops, MaxVehicles int
+	MaxStops, MaxVehicles                                                           int
 	Capacity, Windows, Precedence, Groups, Alternates, Initial, TD, DurGroups, Mult bool
-	Attrs, Mix, Limits, Waits, Targets, MinStops, Disable, NonMetric               bool
+	Attrs, Mix, Limits, Waits, Targets, MinStops, Disable, NonMetric                bool
 	Tight                                                                           bool
 	ForcePrec                                                                       bool // precedence units always on
 	StatedTwice                                                                     bool // some precedence relations are stated from both sides
@@ -418,7 +418,9 @@ func genCase(rng *rand.Rand, p Profile) *Case {
 	if useMix {
 		c.feature("mix")
 		names := []string{"A", "B"}
-		free := func(i int) bool { return i < n && len(c.Stops[i].Precedes) == 0 && !isSuccessor(c, i) && c.Stops[i].Mix == nil }
+		free := func(i int) bool {
+			return i < n && len(c.Stops[i].Precedes) == 0 && !isSuccessor(c, i) && c.Stops[i].Mix == nil
+		}
 		// units of three stops whose precedence leaves one stop unordered: two pickups and one drop-off of their sum
 		// (only ONE pickup is forced in front of it), or one pickup and two drop-offs — the orders in which the unit's
 		// own running quantity dips below what a drop-off takes are exactly those the estimate has to reason about (E29)
@@ -875,7 +877,7 @@ func genCase(rng *rand.Rand, p Profile) *Case {
 						c.Vehicles[0].Initial = append(c.Vehicles[0].Initial, CInitial{Stop: single[0]})
 					}
 				}
-				c.InitUnplan = []int{seq[0]}
+				c.InitUnplan = []int{seq[0], single[0]}
 				break
 			}
 		}
